@@ -18,8 +18,8 @@ from vmon.util import Mon
 
 ID = 'C36'
 RULE = ('per case one random 2-D and one random 3-D crystal (all lattice systems, 1-3 orbits, 1-2 species); pools: '
-        'GroupOp = up to 5 operations of G, products and lattice-translated versions, each with an exact copy and a 1e-13 '
-        'perturbed copy; PairState/ClusterSite = random (i,j,R) / (ci,R) with copies, dx-perturbed copies and neighbours in '
+        'GroupOp = up to 5 operations of G, products and lattice-translated versions, and versions of one operation whose index map has '
+        'a species appended / dropped / two images swapped, each with an exact copy and a 1e-13 perturbed copy; PairState/ClusterSite = random (i,j,R) / (ci,R) with copies, dx-perturbed copies and neighbours in '
         'index space; Cluster = random plain / transition / vacancy / vacancy-transition clusters with permuted and '
         'translated copies, plus collinear triples / parallelograms with the transition or vacancy on every (parallel) pair; '
         'vacancyThermoKinetics = random keys with copies, last-bit / -0.0 / 1e-13 perturbed copies and '
